@@ -175,6 +175,7 @@ class Ctx:
         self.mutations = {}   # root term -> [(kind, node)]  kind: 'whole' | 'field:<name>' | 'elem'
         self._collect()
         self._cache = {}
+        self._dw_busy = set()
 
     # ---- binding table
     def _collect(self):
@@ -239,6 +240,10 @@ class Ctx:
         p = call.get("impl") or call.get("fn")
         cf = self.pdb.fn(p) if p else None
         if cf is not None and not writes_dims(self.pdb, cf):
+            return (path, "elem")
+        # a method taking the receiver as a slice `&mut [T]` cannot change its length: elements only
+        adj = str(call["recv"].get("adj", ""))
+        if str(call.get("fn", "")).startswith("[T]::") and (adj.startswith("&mut [") or str(call["recv"].get("ty", "")).startswith("&mut [")):
             return (path, "elem")
         return (path, "replace")
 
@@ -321,8 +326,17 @@ class Ctx:
         if k == "AddrOf":
             return self.term(n["e"], subst)
         if k == "Unary":
-            t = self.term(n["e"], subst)
             op = n["op"]
+            if op == "!":
+                # !(a == b) is a != b for every type; !(a < b) is a >= b only for totally ordered (integer) operands
+                inner = strip(n["e"])
+                if inner.get("k") == "Binary" and not inner.get("m"):
+                    iop = inner.get("op")
+                    neg = {"==": "!=", "!=": "==", "<": ">=", ">=": "<", ">": "<=", "<=": ">"}
+                    lt_ = base_ty(ty_of(inner["l"]))
+                    if iop in ("==", "!=") or (iop in neg and lt_ in INT_TYS):
+                        return ("op", neg[iop], self.term(inner["l"], subst), self.term(inner["r"], subst))
+            t = self.term(n["e"], subst)
             if op == "*":
                 return t
             if op == "-":
@@ -386,8 +400,16 @@ class Ctx:
         if k == "Struct":
             return ("struct", n.get("path")) + tuple((f["name"], self.term(f["e"], subst)) for f in n.get("fields", []))
         if k == "If":
-            return ("ite", self.term(n["cond"], subst), self.term(n["then"], subst),
-                    self.term(n["else"], subst) if n.get("else") else ("unit",))
+            c_, th_ = self.term(n["cond"], subst), self.term(n["then"], subst)
+            el_ = self.term(n["else"], subst) if n.get("else") else ("unit",)
+            # `if a < b { a } else { b }` on integers is min(a, b) (max likewise), whichever way it is spelled
+            if ty in INT_TYS and c_[0] == "op" and c_[1] in ("<", "<=", ">", ">=") and {c_[2], c_[3]} == {th_, el_} and th_ != el_:
+                lo_first = c_[1] in ("<", "<=")
+                picks_left = th_ == c_[2]
+                which = "min" if lo_first == picks_left else "max"
+                a_, b_ = sorted([c_[2], c_[3]], key=repr)
+                return ("call", "std::cmp::%s" % which, a_, b_)
+            return ("ite", c_, th_, el_)
         if k == "Range":
             return ("range", self.term(n["lo"], subst), self.term(n["hi"], subst), bool(n.get("incl")))
         if k == "Try":
@@ -436,6 +458,11 @@ class Ctx:
             for kind, m in self.mutations.get(root, []):
                 if not _affected_term(t, root, kind):
                     continue
+                if self.disjoint_write([t], root, m):
+                    continue
+                from .guards import _in_exiting_branch
+                if _in_exiting_branch(m, use):
+                    continue
                 mp = _pos(m)
                 own_rhs = any(a is m for a in _anc(use)) and m.get("k") in ("Assign", "AssignOp")
                 if lp < mp < up and not own_rhs:   # (a read inside the assignment's own right-hand side precedes the write)
@@ -445,6 +472,58 @@ class Ctx:
                     if any(id(L) in m_anc for L in outer_loops):
                         return False
         return True
+
+    def disjoint_write(self, ts, root, m):
+        """The mutation m is an element write `B[I] (op)= ..` and every element read of `root` in the terms ts goes
+        through the same base B with an index that provably differs from I (one component strictly smaller or larger,
+        from the facts at m: loop ranges and guards).  Then the write cannot change what ts read."""
+        if m.get("k") not in ("Assign", "AssignOp"):
+            return False
+        key = (id(m), repr(ts))
+        if key in self._dw_busy:
+            return False
+        self._dw_busy.add(key)
+        try:
+            l = m["l"]
+            while l.get("k") in ("AddrOf",) or (l.get("k") == "Unary" and l.get("op") == "*") or \
+                    (l.get("k") == "Block" and not l.get("stmts") and l.get("expr") is not None):
+                l = l["e"] if l.get("k") != "Block" else l["expr"]
+            if l.get("k") != "Index":
+                return False
+            wb, wi = self.term(l["base"]), self.term(l["idx"])
+            from .guards import facts, prove_lt, term_roots
+            reads = []
+
+            def collect(x):
+                if not isinstance(x, tuple):
+                    return
+                if x and x[0] == "idx" and root in term_roots(x[1]):
+                    reads.append(x)
+                for y in x:
+                    if isinstance(y, tuple):
+                        collect(y)
+            for t in ts:
+                collect(t)
+                if t == root:
+                    return False
+            if not reads:
+                return False
+            fs = None
+            for r in reads:
+                if r[1] != wb:
+                    return False
+                ra = r[2][1:] if r[2][0] == "tup" else (r[2],)
+                wa = wi[1:] if wi[0] == "tup" else (wi,)
+                if len(ra) != len(wa):
+                    return False
+                if fs is None:
+                    fs = facts(self, m)
+                if not any(prove_lt(a, b, fs) or prove_lt(b, a, fs) for a, b in zip(ra, wa)):
+                    return False
+            # whole-object reads of root (not through an element read) are not covered
+            return True
+        finally:
+            self._dw_busy.discard(key)
 
     def def_term(self, var):
         """Term of the initialiser of a let-bound local (evaluated at the let), or None."""
